@@ -8,11 +8,13 @@ import (
 	"os"
 
 	"verif/harness/comp/ring"
+	"verif/harness/comp/wait"
 	"verif/harness/internal/hx"
 )
 
 var components = map[string]func(o *hx.Out, g *hx.Rng, tier string){
 	"ring": ring.Run,
+	"wait": wait.Run,
 }
 
 func main() {
